@@ -127,6 +127,59 @@ theorem blindItems_ok {β : Type} [Inhabited β] (ty : RefType) (hty : ty.ild = 
         exact hi ps hps p hpp
       · cases h
 
+/-- `blindItems` SUCCEEDS when every destination is a rank, every item has `ldim` elements and the exchange is not larger
+    than `INT_MAX / ldim` records in total -/
+theorem blindItems_eq {β : Type} [Inhabited β] (ty : RefType) (hty : ty.ild = true) (ldim : Nat)
+    (w : World (List (Nat × List β))) (hd : ∀ ps ∈ w, ∀ x ∈ ps, x.1 < w.length)
+    (hi : ∀ ps ∈ w, ∀ x ∈ ps, x.2.length = ldim) (hsz : (ldim : Int) * (w.flatten.length : Nat) ≤ INT_MAX) :
+    blindItems ty ldim w = .ok ((List.range w.length).map fun r => delivered r w) := by
+  unfold blindItems
+  have hg1 : (w.any fun ps => ps.any fun x => decide (w.length ≤ x.1)) = false := by
+    rw [Bool.eq_false_iff]
+    intro hc
+    simp only [List.any_eq_true, decide_eq_true_eq] at hc
+    obtain ⟨ps, hps, x, hx, hle⟩ := hc
+    exact absurd (hd ps hps x hx) (Nat.not_lt.mpr hle)
+  have hg2 : decide (INT_MAX < (ldim : Int) * ((w.map List.length).foldl (· + ·) 0 : Nat)) = false := by
+    have := sum_lengths w 0
+    simp only [Nat.zero_add] at this
+    rw [this]
+    simpa using hsz
+  simp only [hg1, hg2, Bool.false_eq_true, if_false]
+  have hsend : false = false → ∀ pairs ∈ w, (ldim : Int) * pairs.length ≤ INT_MAX := by
+    intro _ pairs hp
+    have h1 : (pairs.length : Int) ≤ (w.flatten.length : Nat) := by exact_mod_cast length_le_flatten hp
+    have h2 : (0 : Int) ≤ ldim := Int.natCast_nonneg _
+    calc (ldim : Int) * pairs.length ≤ (ldim : Int) * (w.flatten.length : Nat) := Int.mul_le_mul_of_nonneg_left h1 h2
+      _ ≤ INT_MAX := hsz
+  have hrecv : false = false → ∀ r, r < w.length → (ldim : Int) * (delivered r w).length ≤ INT_MAX := by
+    intro _ r _
+    have h1 : ((delivered r w).length : Int) ≤ (w.flatten.length : Nat) := by exact_mod_cast delivered_length_le r w
+    have h2 : (0 : Int) ≤ ldim := Int.natCast_nonneg _
+    calc (ldim : Int) * (delivered r w).length ≤ (ldim : Int) * (w.flatten.length : Nat) :=
+          Int.mul_le_mul_of_nonneg_left h1 h2
+      _ ≤ INT_MAX := hsz
+  have hspec := Refine.Props.C17.blindsend_spec false ty hty 32767 ldim w hd hi (by intro hh; cases hh) hsend hrecv
+  have hform : (w.map fun ps => (⟨ps.map fun x => (x.1 : Int), (ps.map (·.2)).flatten⟩ : Blind β)) = w.map blindOf := rfl
+  rw [hform, hspec]
+  simp only
+  have hall : (((List.range w.length).map fun r =>
+      (Status.ok, ((delivered r w).length : Int), (delivered r w).flatten)).all fun x => x.1 == Status.ok) = true := by
+    simp [List.all_eq_true]
+  rw [if_pos hall]
+  congr 1
+  simp only [List.map_map]
+  apply List.map_congr_left
+  intro r _
+  simp only [Function.comp, Int.toNat_natCast]
+  apply chunks_flatten
+  intro x hx
+  rw [Refine.Props.C17.blindsend_exactly_once] at hx
+  simp only [List.mem_map, List.mem_filter] at hx
+  obtain ⟨p, ⟨hp, _⟩, rfl⟩ := hx
+  obtain ⟨ps, hps, hpp⟩ := List.mem_flatten.mp hp
+  exact hi ps hps p hpp
+
 /-! ## the four blind sends of stage 1 / stage 3 -/
 
 section Exchange
@@ -363,6 +416,124 @@ theorem migrate_ok (w : World (Agents α)) {w' : World (Agents α)} (h : migrate
     · cases h
     · cases h
     · cases h
+
+/-- **`ref_agents_migrate` SUCCEEDS** when every leaving agent's destination is a rank and at most `INT_MAX / 7` agents
+    leave in total: the result is the one `migrate_ok` describes -/
+theorem migrate_eq (w : World (Agents α))
+    (hdest : ∀ l ∈ (w.mapIdx fun r a => leaving r a), ∀ p ∈ l, 0 ≤ p.2.dest ∧ p.2.dest < (w.length : Int))
+    (hsz : (7 : Int) * ((outPairs w).flatten.length : Nat) ≤ INT_MAX) :
+    migrate w = .ok ((staysOf w).zipIdx.map fun q =>
+      (deliveredG q.2 (outPairs w)).foldl (fun a ag => (a.push ag).2) q.1) := by
+  have hol : (outPairs w).length = w.length := by simp [outPairs]
+  have hd : ∀ ps ∈ outPairs w, ∀ x ∈ ps, x.1 < (outPairs w).length := by
+    intro ps hps x hx
+    simp only [outPairs, List.mem_map] at hps
+    obtain ⟨l, hl, rfl⟩ := hps
+    simp only [List.mem_map] at hx
+    obtain ⟨p, hp, rfl⟩ := hx
+    obtain ⟨h0, h1⟩ := hdest l hl p hp
+    rw [hol]
+    simp only
+    omega
+  have hguard : ((w.mapIdx fun r a => leaving r a).any fun l =>
+      l.any fun p => decide (p.2.dest < 0) || decide (p.2.dest ≥ (w.length : Int))) = false := by
+    rw [Bool.eq_false_iff]
+    intro hc
+    simp only [List.any_eq_true, Bool.or_eq_true, decide_eq_true_eq] at hc
+    obtain ⟨l, hl, p, hp, hbad⟩ := hc
+    obtain ⟨h0, h1⟩ := hdest l hl p hp
+    rcases hbad with hb | hb <;> omega
+  have hsz' : ∀ k : Nat, k ≤ 7 → (k : Int) * ((outPairs w).flatten.length : Nat) ≤ INT_MAX := by
+    intro k hk
+    have : (k : Int) * ((outPairs w).flatten.length : Nat) ≤ (7 : Int) * ((outPairs w).flatten.length : Nat) :=
+      Int.mul_le_mul_of_nonneg_right (by exact_mod_cast hk) (Int.natCast_nonneg _)
+    exact le_trans this hsz
+  have flen : ∀ {β : Type} (f : AgentP α → List β),
+      ((outPairs w).map fun l => l.map fun y => (y.1, f y.2)).flatten.length = (outPairs w).flatten.length := by
+    intro β f
+    simp only [List.length_flatten, List.map_map]
+    congr 1
+    apply List.map_congr_left
+    intro l _
+    simp
+  have r1 := blindItems_eq RefType.int rfl InterpConsts.nInts
+    ((outPairs w).map fun l => l.map fun y => (y.1, (packAgent y.2).1))
+    (by
+      intro ps hps x hx
+      simp only [List.mem_map] at hps
+      obtain ⟨l, hl, rfl⟩ := hps
+      simp only [List.mem_map] at hx
+      obtain ⟨y, hy, rfl⟩ := hx
+      simpa using hd l hl y hy)
+    (by
+      intro ps hps x hx
+      simp only [List.mem_map] at hps
+      obtain ⟨l, _, rfl⟩ := hps
+      simp only [List.mem_map] at hx
+      obtain ⟨y, _, rfl⟩ := hx
+      exact (packAgent_lengths y.2).1)
+    (by rw [flen (fun x => (packAgent x).1)]; exact hsz' _ (by decide))
+  have r2 := blindItems_eq RefType.long rfl InterpConsts.nGlobs
+    ((outPairs w).map fun l => l.map fun y => (y.1, (packAgent y.2).2.1))
+    (by
+      intro ps hps x hx
+      simp only [List.mem_map] at hps
+      obtain ⟨l, hl, rfl⟩ := hps
+      simp only [List.mem_map] at hx
+      obtain ⟨y, hy, rfl⟩ := hx
+      simpa using hd l hl y hy)
+    (by
+      intro ps hps x hx
+      simp only [List.mem_map] at hps
+      obtain ⟨l, _, rfl⟩ := hps
+      simp only [List.mem_map] at hx
+      obtain ⟨y, _, rfl⟩ := hx
+      exact (packAgent_lengths y.2).2.1)
+    (by rw [flen (fun x => (packAgent x).2.1)]; exact hsz' _ (by decide))
+  have r3 := blindItems_eq RefType.dbl rfl InterpConsts.nDbls
+    ((outPairs w).map fun l => l.map fun y => (y.1, (packAgent y.2).2.2))
+    (by
+      intro ps hps x hx
+      simp only [List.mem_map] at hps
+      obtain ⟨l, hl, rfl⟩ := hps
+      simp only [List.mem_map] at hx
+      obtain ⟨y, hy, rfl⟩ := hx
+      simpa using hd l hl y hy)
+    (by
+      intro ps hps x hx
+      simp only [List.mem_map] at hps
+      obtain ⟨l, _, rfl⟩ := hps
+      simp only [List.mem_map] at hx
+      obtain ⟨y, _, rfl⟩ := hx
+      exact (packAgent_lengths y.2).2.2)
+    (by rw [flen (fun x => (packAgent x).2.2)]; exact hsz' _ (by decide))
+  -- the model's `migrate` with the three exchanges evaluated is a successful run: `migrate_ok` names its result
+  have hrun : ∃ w', migrate w = .ok w' := by
+    unfold migrate
+    simp only [hguard, Bool.false_eq_true, if_false]
+    have ho : List.map (fun l => List.map (fun p => (p.2.dest.toNat, p.2)) l)
+        (List.mapIdx (fun r a => leaving r a) w) = outPairs w := rfl
+    rw [ho, r1, r2, r3]
+    simp only [List.length_map, hol]
+    have hsl : (staysOf w).length = w.length := by simp [staysOf]
+    change ∃ w', collect (((staysOf w).zip _).map _) = .ok w'
+    rw [zip_map_range, zip_map_range, ← hsl, zip_range_map, List.map_map]
+    have hfun : ∀ q : Agents α × Nat,
+        ((fun q : Agents α × _ => receiveAgents q.1 (q.2.1.zip (q.2.2.1.zip q.2.2.2))) ∘
+          fun q : Agents α × Nat => (q.1,
+            delivered q.2 (List.map (fun l => List.map (fun y => (y.1, (packAgent y.2).1)) l) (outPairs w)),
+            delivered q.2 (List.map (fun l => List.map (fun y => (y.1, (packAgent y.2).2.1)) l) (outPairs w)),
+            delivered q.2 (List.map (fun l => List.map (fun y => (y.1, (packAgent y.2).2.2)) l) (outPairs w)))) q =
+        Except.ok ((deliveredG q.2 (outPairs w)).foldl (fun a ag => (a.push ag).2) q.1) := by
+      intro q
+      simp only [Function.comp]
+      rw [delivered_map (fun x : AgentP α => (packAgent x).1), delivered_map (fun x : AgentP α => (packAgent x).2.1),
+        delivered_map (fun x : AgentP α => (packAgent x).2.2), zip_map_same, zip_map_same]
+      exact receiveAgents_packed q.1 _
+    rw [List.map_congr_left (fun q _ => hfun q), collect_map_ok]
+    exact ⟨_, rfl⟩
+  obtain ⟨w', hw'⟩ := hrun
+  rw [hw', migrate_ok w hw']
 
 /-- no agent is invented or altered by a migration: every agent of the new world is an agent of the old one -/
 theorem migrate_mem {w w' : World (Agents α)} (h : migrate w = .ok w') {a' : Agents α} (ha : a' ∈ w')
